@@ -51,14 +51,21 @@ func c13Want(kind uint, t *c13Tree, out string) bool {
 }
 
 // VerifC13: histories of n steps over up to two live trees. Steps: Add on a solver-chosen node of a
-// solver-chosen tree, creation of the second tree, an unrelated From-Markdown call, or a From-Root operation
+// solver-chosen tree, creation of the second tree, an unrelated From-Markdown call, an unrelated option-less
+// VerifyFromRoot of a throw-away tree, or a From-Root operation
 // (text, walk, iterator walk, JSON) on a chosen tree. After every operation the result equals the reference
 // rendering of that tree's current model (a function of shape and names only) and repeating the operation
 // repeats the result.
-// c13Name: a single path element, or (verifN() >= 10) the empty string: NewRoot("") / Add("") are legal calls.
+// c13Name: a single path element, or (verifN() >= 10) the empty string or a name that is no path element:
+// NewRoot("") / Add("x/y") are legal calls, and text, walk and JSON do not validate names.
 func c13Name() string {
-	if verifN() >= 10 && verifFlag("emptyName") {
-		return ""
+	if verifN() >= 10 {
+		switch verifChoose("nameKind", 0, 2) {
+		case 1:
+			return ""
+		case 2:
+			return "x/y"
+		}
 	}
 	return verifName("name")
 }
@@ -74,7 +81,7 @@ func VerifC13() {
 	ops := 0
 	kind := verifChoose("op", 0, 3) // one kind of operation per history
 	for i := 0; i < n; i++ {
-		step := verifChoose("step", 0, 3)
+		step := verifChoose("step", 0, 4)
 		switch step {
 		case 0: // Add
 			t := trees[verifChoose("tree", 0, uint(len(trees)-1))]
@@ -112,6 +119,9 @@ func VerifC13() {
 			err := OutputFromMarkdown(w, &verifReader{lines: []string{verifRow("", 0, 0, a), verifRow("", 0, 1, b)}})
 			verifAssert(err == nil && w.out == a+"\n"+dLD+" "+b+"\n", "C13.md")
 			hist += "M"
+		case 4: // unrelated option-less verify of a throw-away tree (read-only; switches name validation on for itself)
+			_ = VerifyFromRoot(NewRoot(verifName("name")))
+			hist += "V"
 		}
 	}
 	verifNote("history=" + hist)
